@@ -100,8 +100,4 @@ class Storage:
         Remove all expired items.
         """
         for key in self.items:
-            for index, value in reversed(list(enumerate(self.items[key]))):
-                if value.expired:
-                    self.items[key].pop(index)
-                else:
-                    break
+            self.items[key] = [value for value in self.items[key] if not value.expired]
